@@ -333,17 +333,18 @@ def side_flip_problems(sc, phases):
 
 
 def extra_move_oracles(sc, phases, mi, k, bad):
-    """merge the MOVE oracles into the verdict of judge_phases: the earliest rejected phase wins, problems of the same phase are joined"""
-    n_extra = 0
-    for kk, bb in (side_flip_problems(sc, phases), move_info_problems(sc, phases, mi)):        # (prepended in this order: the MI problem ends up first)
-        if kk is None:
-            continue
-        n_extra += 1
-        if k is None or kk < k:
-            k, bad = kk, list(bb)
-        elif kk == k:
-            bad = list(bb) + list(bad)
-    return k, bad, n_extra
+    """merge the MOVE oracles into the verdict of judge_phases: the earliest rejected phase wins; problems of one phase are ordered loop-level
+    oracle (code 6), verified checker (codes 1-4; the first two), side flips (code 7, at most 2), rest of the checker's"""
+    km, bm = move_info_problems(sc, phases, mi)
+    kf, bf = side_flip_problems(sc, phases)
+    cands = [x for x in (k, km, kf) if x is not None]
+    n_extra = (km is not None) + (kf is not None)
+    if not n_extra:
+        return k, bad, 0
+    k0 = min(cands)
+    b6, b14, b7 = (list(bm) if km == k0 else []), (list(bad) if k == k0 else []), (list(bf)[:2] if kf == k0 else [])
+    out = b6 + b14[:2] + b7 + b14[2:]
+    return k0, out, n_extra
 
 
 def assert_fingerprint(exc):
@@ -361,6 +362,8 @@ def assert_fingerprint(exc):
 def run_scene_families(res, tier, rng, exe, spec_exe):
     from checks import c13lib as L
     nq = (400, 300, 400, 300, 16) if tier == 'quick' else (3000, 2000, 3000, 2500, 240)
+    if os.environ.get('C13_COMB_N') is not None:      # number of scenes of the `comb` family (many events in one moveTo pass), for soaks
+        nq = nq[:4] + (int(os.environ['C13_COMB_N']),)
     scenes = []
     if os.path.exists(SCENE_CORPUS):
         scenes += [dict(sc, corpus=True) for sc in L.parse_scripts(open(SCENE_CORPUS).read())]
@@ -456,14 +459,14 @@ def run_scene_families(res, tier, rng, exe, spec_exe):
             st['assertions'][fp] = st['assertions'].get(fp, 0) + 1
         ndr = nd.get(sc['tag'])
         last_ok = phases[(k - 1) if k else max(i for i, p in enumerate(phases) if not p['name'].endswith('.atexc'))]
-        obj = {'what': ('ColaTopologyAddon::moveTo does not return the last state produced by a safe step (loop-level oracle, DESIGN 9.17): ' + bad[0]['kind']
-                        if k and any(b.get('code') in (6, 7) for b in bad) else
+        obj = {'what': ('ColaTopologyAddon::moveTo does not return the last state produced by a safe step (loop-level oracle, DESIGN 9.17): ' +
+                        [b for b in bad if b.get('code') in (6, 7)][0]['kind'] if k and any(b.get('code') in (6, 7) for b in bad) else
                         'the verified checker rejects a state reached by libtopology' if k else
                         'an invariant assertion of libtopology fired (reported as a violation of the property: the library itself found '
                         'a non-convex bend / a segment through a node / an infeasible constraint); see ndebug_run for the same scene in '
                         'a build without assertions, judged by the verified checker'),
                'family': sc['family'], 'symmetry_swap_flipx_flipy': sc.get('sym'), 'comb_parameters': sc.get('comb'), 'assertion': exc, 'assertion_fingerprint': fp,
-               'problems': bad[:4], 'rejected_state': state(phases[k]) if k else None, 'last_valid_state': state(last_ok),
+               'problems': bad[:5], 'rejected_state': state(phases[k]) if k else None, 'last_valid_state': state(last_ok),
                'ndebug_run': ndr, 'scene_script': L.script(sc),
                'replay': 'printf \'%s\' | build/bin/c13_topo-exc-* scenes     (and c13_topo-ndebug-*)' % L.script(sc).replace('\n', '\\n')}
         kf = classify_scene_failure(sc, phases, exc, k, bad, ndr)
